@@ -264,7 +264,11 @@ func corrGens(r *rng, c *caseOut, n int, strAll bool) {
 				break
 			}
 		}
-		c.add(fmt.Sprintf("gen %s | %s", sx, joinU64(ws)),
+		op := "gen"
+		if strAll {
+			op = "genstr" // String() was called on every generator: all groups carry their labels
+		}
+		c.add(fmt.Sprintf("%s %s | %s", op, sx, joinU64(ws)),
 			fmt.Sprintf("res=%s rest=%d %s pruned=%s", res, len(s.Rest()), showRec(rec), prunedData(rec)))
 	}
 }
